@@ -4,7 +4,7 @@
 #![allow(dead_code)]
 
 use crate::Kind::{Flag, Opt, Rep, Req};
-use crate::Ty::{Str, Unix, UnixString as UStr};
+use crate::Ty::{Str, Unix, UnixString as UStr, Word};
 use crate::{help_of, number, run, Grammar, Kind, OptD, PosD, Shape, SubD, ToM, Tok, Ty, F, L200, M, V};
 use tiny_cli::{ArgParse, Subcommand};
 use tiny_std::{UnixStr, UnixString};
@@ -465,7 +465,7 @@ impl ToM for Empty {
 
 // ---- the declarations ------------------------------------------------------
 
-pub fn all() -> Vec<Shape> {
+fn base() -> Vec<Shape> {
     vec![
         shape("ReqOpt", g(vec![o(Some("--req"), None, Req, Unix, &[X, E, L, ACC, NU, DX, DHELP, DH, b"--req"])], vec![], None), run::<ReqOpt>, || {
             vec![help_of::<ReqOpt>()]
@@ -634,5 +634,413 @@ pub fn all() -> Vec<Shape> {
             || vec![help_of::<Complex>(), help_of::<RunArgs>(), help_of::<ArgArgs>()],
         ),
         shape("Empty", g(vec![], vec![], None), run::<Empty>, || vec![help_of::<Empty>()]),
+    ]
+}
+
+/// A help printer (and its text) for the direct drive of the error constructors.
+pub fn cause_help() -> (&'static dyn core::fmt::Display, String) {
+    (<ReqOpt as tiny_std::unix::cli::ArgParse>::help_printer(), help_of::<ReqOpt>())
+}
+
+pub fn all() -> Vec<Shape> {
+    let mut v = base();
+    v.extend(collisions());
+    v.extend(echoes());
+    v
+}
+
+// ===========================================================================
+// Declared names that collide with the built-in help tokens `-h` / `--help`.
+// A declared option is part of the declared grammar: `-h v` must parse back to `v`
+// wherever the struct declares short "h" (long "help" likewise); the built-in help
+// stays on whichever of the two tokens the struct does NOT declare.
+
+// ---- 16. short "h" with another long, required; next to an ordinary option ----
+
+/// connect somewhere
+#[derive(ArgParse)]
+#[cli(help_path = "h-cli, connect")]
+struct HShortReq {
+    /// the host
+    #[cli(short = "h", long = "host")]
+    host: &'static str,
+    #[cli(short = "p", long = "port")]
+    port: Option<u16>,
+}
+impl ToM for HShortReq {
+    fn to_m(&self) -> M {
+        M { opts: vec![one(vs(self.host)), F::One(self.port.map(vi))], pos: vec![], sub: None }
+    }
+}
+
+// ---- 17. optional short "h" and repeated long "help" on two different fields ----
+
+#[derive(ArgParse)]
+#[cli(help_path = "h-cli")]
+struct HOptHelpRep {
+    #[cli(short = "h", long = "height")]
+    height: Option<i32>,
+    #[cli(short = "x", long = "help")]
+    topics: Vec<&'static UnixStr>,
+}
+impl ToM for HOptHelpRep {
+    fn to_m(&self) -> M {
+        M { opts: vec![F::One(self.height.map(vi)), F::Many(self.topics.iter().map(|u| vu(u)).collect())], pos: vec![], sub: None }
+    }
+}
+
+// ---- 18. boolean fields: short "h" (with a long), long "help" (alone) ----------
+
+#[derive(ArgParse)]
+#[cli(help_path = "h-cli")]
+struct HFlags {
+    #[cli(short = "h", long = "human")]
+    human: bool,
+    #[cli(long = "help")]
+    help: bool,
+    #[cli(short = "n")]
+    n: Option<u8>,
+}
+impl ToM for HFlags {
+    fn to_m(&self) -> M {
+        M { opts: vec![F::Flag(self.human), F::Flag(self.help), F::One(self.n.map(vi))], pos: vec![], sub: None }
+    }
+}
+
+// ---- 19. both built-in names on ONE required field -----------------------------
+
+#[derive(ArgParse)]
+#[cli(help_path = "h-cli")]
+struct HBoth {
+    #[cli(short = "h", long = "help")]
+    topic: String,
+    #[cli(short = "v")]
+    v: bool,
+}
+impl ToM for HBoth {
+    fn to_m(&self) -> M {
+        M { opts: vec![one(vs(&self.topic)), F::Flag(self.v)], pos: vec![], sub: None }
+    }
+}
+
+// ---- 20. short "h" alone (no long), repeated, next to a positional -------------
+
+#[derive(ArgParse)]
+#[cli(help_path = "h-cli")]
+struct HShortOnlyRep {
+    #[cli(short = "h")]
+    hosts: Vec<String>,
+    target: &'static UnixStr,
+}
+impl ToM for HShortOnlyRep {
+    fn to_m(&self) -> M {
+        M { opts: vec![F::Many(self.hosts.iter().map(|s| vs(s)).collect())], pos: vec![Some(vu(self.target))], sub: None }
+    }
+}
+
+// ---- 21. optional long "help" with another short --------------------------------
+
+#[derive(ArgParse)]
+#[cli(help_path = "h-cli")]
+struct LongHelpOpt {
+    #[cli(short = "t", long = "help")]
+    topic: Option<&'static str>,
+    #[cli(long = "req")]
+    req: i64,
+}
+impl ToM for LongHelpOpt {
+    fn to_m(&self) -> M {
+        M { opts: vec![F::One(self.topic.map(vs)), one(vi(self.req))], pos: vec![], sub: None }
+    }
+}
+
+// ---- 22. collisions in a struct with a subcommand and inside subcommand variants -
+
+#[derive(ArgParse)]
+#[cli(help_path = "h-cli")]
+struct HSub {
+    #[cli(short = "h", long = "host")]
+    host: &'static str,
+    #[cli(subcommand)]
+    cmd: HCmd,
+}
+#[derive(Subcommand)]
+enum HCmd {
+    Ping,
+    /// declares short h again, for another field
+    Get(HGetArgs),
+    /// declares neither: both built-ins live here
+    Plain(HPlainArgs),
+}
+#[derive(ArgParse)]
+#[cli(help_path = "h-cli, get")]
+struct HGetArgs {
+    #[cli(short = "h", long = "header")]
+    headers: Vec<&'static str>,
+    #[cli(short = "o")]
+    out: Option<&'static UnixStr>,
+}
+#[derive(ArgParse)]
+#[cli(help_path = "h-cli, plain")]
+struct HPlainArgs {
+    #[cli(short = "k")]
+    k: Option<i32>,
+}
+impl ToM for HGetArgs {
+    fn to_m(&self) -> M {
+        M { opts: vec![F::Many(self.headers.iter().map(|s| vs(s)).collect()), F::One(self.out.map(vu))], pos: vec![], sub: None }
+    }
+}
+impl ToM for HPlainArgs {
+    fn to_m(&self) -> M {
+        M { opts: vec![F::One(self.k.map(vi))], pos: vec![], sub: None }
+    }
+}
+impl ToM for HSub {
+    fn to_m(&self) -> M {
+        let sub = match &self.cmd {
+            HCmd::Ping => unit(0),
+            HCmd::Get(x) => with(1, x),
+            HCmd::Plain(x) => with(2, x),
+        };
+        M { opts: vec![one(vs(self.host))], pos: vec![], sub: Some(sub) }
+    }
+}
+
+// ---- 23. no collision outside, long "help" flag + short "h" option inside an optional subcommand -
+
+#[derive(ArgParse)]
+#[cli(help_path = "h-cli")]
+struct HSubOpt {
+    #[cli(long = "dry")]
+    dry: bool,
+    #[cli(subcommand)]
+    cmd: Option<HOptCmd>,
+}
+#[derive(Subcommand)]
+enum HOptCmd {
+    Show(HShowArgs),
+    Quit,
+}
+#[derive(ArgParse)]
+#[cli(help_path = "h-cli, show")]
+struct HShowArgs {
+    #[cli(long = "help")]
+    help: bool,
+    #[cli(short = "h")]
+    height: Option<u8>,
+    what: Option<String>,
+}
+impl ToM for HShowArgs {
+    fn to_m(&self) -> M {
+        M { opts: vec![F::Flag(self.help), F::One(self.height.map(vi))], pos: vec![self.what.as_deref().map(vs)], sub: None }
+    }
+}
+impl ToM for HSubOpt {
+    fn to_m(&self) -> M {
+        let sub: SubM = self.cmd.as_ref().map(|c| match c {
+            HOptCmd::Show(x) => with(0, x),
+            HOptCmd::Quit => unit(1),
+        });
+        M { opts: vec![F::Flag(self.dry)], pos: vec![], sub }
+    }
+}
+
+fn collisions() -> Vec<Shape> {
+    vec![
+        shape(
+            "HShortReq",
+            g(
+                vec![o(Some("--host"), Some("-h"), Req, Str, &[X, E, DH, DHELP, b"--host"]), o(Some("--port"), Some("-p"), Opt, U16, &[b"7", b"65535"])],
+                vec![],
+                None,
+            ),
+            run::<HShortReq>,
+            || vec![help_of::<HShortReq>()],
+        ),
+        shape(
+            "HOptHelpRep",
+            g(
+                vec![o(Some("--height"), Some("-h"), Opt, I32, &[b"7", b"-5"]), o(Some("--help"), Some("-x"), Rep, Unix, &[X, NU, DH, DHELP])],
+                vec![],
+                None,
+            ),
+            run::<HOptHelpRep>,
+            || vec![help_of::<HOptHelpRep>()],
+        ),
+        shape(
+            "HFlags",
+            g(
+                vec![
+                    o(Some("--human"), Some("-h"), Flag, Str, &[]),
+                    o(Some("--help"), None, Flag, Str, &[]),
+                    o(None, Some("-n"), Opt, U8, &[b"7", b"255"]),
+                ],
+                vec![],
+                None,
+            ),
+            run::<HFlags>,
+            || vec![help_of::<HFlags>()],
+        ),
+        shape(
+            "HBoth",
+            g(vec![o(Some("--help"), Some("-h"), Req, Str, &[X, E, ACC, L, DH, DHELP, DX]), o(None, Some("-v"), Flag, Str, &[])], vec![], None),
+            run::<HBoth>,
+            || vec![help_of::<HBoth>()],
+        ),
+        shape(
+            "HShortOnlyRep",
+            g(vec![o(None, Some("-h"), Rep, Str, &[X, DH, DHELP])], vec![p(true, Unix, &[X, NU, E])], None),
+            run::<HShortOnlyRep>,
+            || vec![help_of::<HShortOnlyRep>()],
+        ),
+        shape(
+            "LongHelpOpt",
+            g(vec![o(Some("--help"), Some("-t"), Opt, Str, &[X, E, DHELP, DH]), o(Some("--req"), None, Req, I64, &[b"7", b"-5"])], vec![], None),
+            run::<LongHelpOpt>,
+            || vec![help_of::<LongHelpOpt>()],
+        ),
+        shape(
+            "HSub",
+            g(
+                vec![o(Some("--host"), Some("-h"), Req, Str, &[X, DH, b"get"])],
+                vec![],
+                Some(SubD {
+                    required: true,
+                    cmds: vec![
+                        ("ping", None),
+                        (
+                            "get",
+                            Some(g(vec![o(Some("--header"), Some("-h"), Rep, Str, &[X, DHELP]), o(None, Some("-o"), Opt, Unix, &[NU, DH])], vec![], None)),
+                        ),
+                        ("plain", Some(g(vec![o(None, Some("-k"), Opt, I32, &[b"7", b"-5"])], vec![], None))),
+                    ],
+                }),
+            ),
+            run::<HSub>,
+            || vec![help_of::<HSub>(), help_of::<HGetArgs>(), help_of::<HPlainArgs>()],
+        ),
+        shape(
+            "HSubOpt",
+            g(
+                vec![o(Some("--dry"), None, Flag, Str, &[])],
+                vec![],
+                Some(SubD {
+                    required: false,
+                    cmds: vec![
+                        (
+                            "show",
+                            Some(g(
+                                vec![o(Some("--help"), None, Flag, Str, &[]), o(None, Some("-h"), Opt, U8, &[b"7", b"255"])],
+                                vec![p(false, Str, &[X, ACC])],
+                                None,
+                            )),
+                        ),
+                        ("quit", None),
+                    ],
+                }),
+            ),
+            run::<HSubOpt>,
+            || vec![help_of::<HSubOpt>(), help_of::<HShowArgs>()],
+        ),
+    ]
+}
+
+// ===========================================================================
+// User field types whose `FromStr::Err` echoes the offending character: every way
+// text can reach the fixed-size cause buffer of the error path (`write_str`, a `char`
+// format argument -> `write_char`, Debug of a char, nested `format_args!`, padding).
+// A value is a (possibly empty) run of ASCII letters and digits; the first other
+// character is reported together with the text before it.
+
+pub struct BadChar {
+    before: String,
+    c: char,
+}
+fn word(s: &str) -> Result<String, BadChar> {
+    for (i, c) in s.char_indices() {
+        if !c.is_ascii_alphanumeric() {
+            return Err(BadChar { before: s[..i].to_string(), c });
+        }
+    }
+    Ok(s.to_string())
+}
+macro_rules! echo_type {
+    ($name:ident, $err:ident, |$e:ident, $f:ident| $body:expr) => {
+        pub struct $name(String);
+        pub struct $err(BadChar);
+        impl core::str::FromStr for $name {
+            type Err = $err;
+            fn from_str(s: &str) -> Result<Self, Self::Err> {
+                word(s).map($name).map_err($err)
+            }
+        }
+        impl core::fmt::Display for $err {
+            fn fmt(&self, $f: &mut core::fmt::Formatter<'_>) -> core::fmt::Result {
+                let $e = &self.0;
+                $body
+            }
+        }
+    };
+}
+use core::fmt::Write as _;
+echo_type!(EchoDisp, EchoDispErr, |e, f| write!(f, "after '{}': bad char {}", e.before, e.c));
+echo_type!(EchoDbg, EchoDbgErr, |e, f| write!(f, "after '{}': bad char {:?}", e.before, e.c));
+echo_type!(EchoWc, EchoWcErr, |e, f| {
+    f.write_str(&e.before)?;
+    f.write_char(e.c)
+});
+echo_type!(EchoNested, EchoNestedErr, |e, f| write!(f, "{}", format_args!("{}: {}", format_args!("after {}", e.before), e.c)));
+echo_type!(EchoPad, EchoPadErr, |e, f| write!(f, "{}{:>3}|{:-<2}", e.before, e.c, e.c));
+
+#[derive(ArgParse)]
+#[cli(help_path = "h-cli, echo-opts")]
+struct EchoOpts {
+    #[cli(long = "disp")]
+    d: Option<EchoDisp>,
+    #[cli(long = "dbg")]
+    g: Option<EchoDbg>,
+    #[cli(short = "w")]
+    w: Vec<EchoWc>,
+}
+impl ToM for EchoOpts {
+    fn to_m(&self) -> M {
+        M {
+            opts: vec![F::One(self.d.as_ref().map(|x| vs(&x.0))), F::One(self.g.as_ref().map(|x| vs(&x.0))), F::Many(self.w.iter().map(|x| vs(&x.0)).collect())],
+            pos: vec![],
+            sub: None,
+        }
+    }
+}
+
+#[derive(ArgParse)]
+#[cli(help_path = "h-cli, echo-pos")]
+struct EchoPos {
+    first: EchoNested,
+    second: Option<EchoPad>,
+}
+impl ToM for EchoPos {
+    fn to_m(&self) -> M {
+        M { opts: vec![], pos: vec![Some(vs(&self.first.0)), self.second.as_ref().map(|x| vs(&x.0))], sub: None }
+    }
+}
+
+fn echoes() -> Vec<Shape> {
+    vec![
+        shape(
+            "EchoOpts",
+            g(
+                vec![
+                    o(Some("--disp"), None, Opt, Word, &[X, E, b"12x"]),
+                    o(Some("--dbg"), None, Opt, Word, &[b"7", L]),
+                    o(None, Some("-w"), Rep, Word, &[X, E]),
+                ],
+                vec![],
+                None,
+            ),
+            run::<EchoOpts>,
+            || vec![help_of::<EchoOpts>()],
+        ),
+        shape("EchoPos", g(vec![], vec![p(true, Word, &[X, E, L]), p(false, Word, &[b"12x", b"7"])], None), run::<EchoPos>, || vec![help_of::<EchoPos>()]),
     ]
 }
